@@ -206,6 +206,14 @@ func TestC08(t *testing.T) {
 		if lin && g.pct("contend") < 30 {
 			genContend(g, prog)
 		}
+		if !lin {
+			switch x := g.pct("class"); {
+			case x < 15:
+				genReaders(g, prog)
+			case x < 27:
+				genFlushers(g, prog)
+			}
+		}
 		prog.Aux["lin"] = lin
 		prog.Aux["procs"] = pickU(g, []int{2, 4, 16}, "procs")
 		guard(rt, prog, func() { caseC08(rt, prog) })
@@ -283,6 +291,11 @@ func caseC08(t TB, prog *Program) {
 		var hist []Event
 		for _, l := range evs {
 			hist = append(hist, l...)
+		}
+		for _, ev := range hist {
+			if ev.Op.Kind == "flushOne" && ev.Class != OK {
+				e.failf("concurrent Flush of the stored object %s failed: %s (execution %d)", ev.ID, ev.Val, rep)
+			}
 		}
 		// overlap statistics
 		for i := range hist {
@@ -396,4 +409,52 @@ func genContend(g *G, prog *Program) {
 	}
 	prog.Aux["workers"] = ws
 	prog.Aux["contend"] = true
+}
+
+// genReaders: read-only workers hammering the same indexed fields, mostly with
+// pattern searches using different patterns (anything memoised or mutated under the
+// read lock shows up as a race between pure readers).
+func genReaders(g *G, prog *Program) {
+	prog.Cfg.Cons = map[string]Cons{"S": {Index: true}, "S2": {Index: true}, "I64": {Index: true}}
+	pats := []string{"a", "^a", "b$", ".*", "[aA]", "A+", "a|b", "^(a|A)b?$", "x", "^$"}
+	nw := 2 + g.uni(3, "rworkers")
+	var ws [][]COp
+	for w := 0; w < nw; w++ {
+		var ops []COp
+		for i, n := 0, 2+g.uni(4, "rops"); i < n; i++ {
+			path := pickU(g, []string{"S", "S", "S2"}, "rpath")
+			switch g.uni(6, "rkind") {
+			case 0:
+				ops = append(ops, COp{Kind: "assignIndex", Path: path})
+			case 1:
+				ops = append(ops, COp{Kind: "all"})
+			case 2:
+				ops = append(ops, COp{Kind: "searchChain", Q: &Query{Leaves: []Leaf{{Path: "I64", Op: "!=", V: Val{K: "i", I: -5}}, {Conn: "and", Path: path, Op: "~=", V: Val{K: "s", S: pickU(g, pats, "pat")}}}}})
+			default:
+				ops = append(ops, COp{Kind: pickU(g, []string{"searchLen", "searchCollect"}, "rk"), Q: &Query{Leaves: []Leaf{{Path: path, Op: "~=", V: Val{K: "s", S: pickU(g, pats, "pat")}}}}})
+			}
+		}
+		ws = append(ws, ops)
+	}
+	prog.Aux["workers"] = ws
+	prog.Aux["readers"] = true
+}
+
+// genFlushers: several goroutines flush the same pending objects at the same time
+// (Flush / FlushAll / FlushAllAndCommit / Commit); every call must succeed and the
+// files must be complete afterwards (finalConsistency decodes them).
+func genFlushers(g *G, prog *Program) {
+	prog.Cfg.Async = &AsyncCfg{Threshold: 8, TimeoutMs: 2000}
+	nw := 2 + g.uni(3, "fworkers")
+	var ws [][]COp
+	for w := 0; w < nw; w++ {
+		var ops []COp
+		for i, n := 0, 2+g.uni(4, "fops"); i < n; i++ {
+			ops = append(ops, COp{Kind: pickU(g, []string{"flushOne", "flushOne", "flushOne", "flushAll", "flushAllCommit", "commit", "get"}, "fk"), Ref: g.uni(3, "fref")})
+		}
+		ws = append(ws, ops)
+	}
+	prog.Aux["workers"] = ws
+	prog.Aux["flushers"] = true
+	prog.Aux["warm"] = true
 }
